@@ -97,6 +97,9 @@ func devCmd(args []string) {
 	}
 	fmt.Printf("loaded in %.1fs, %d functions, %d contracts\n", time.Since(start).Seconds(), len(w.allFuncs), len(w.contracts))
 	vcs := w.propVCs(prop, *safe)
+	if d := propDrivers[prop]; d != nil && d.extra != nil {
+		vcs = append(vcs, d.extra(w, "quick")...)
+	}
 	var sel []VC
 	for _, v := range vcs {
 		if *filter == "" || strings.Contains(v.Name, *filter) {
